@@ -83,6 +83,138 @@ theorem c01_immutable_trial_failed_precondition (cfg : Cfg) (st : Study) (id : N
   · intro hs m; simp [addMeasurementBody, hf, hs]
   · intro hs; rcases hs with h | h <;> simp [stopBody, hf, h]
 
+/-! ### the documented error table, as ONE function of (stored data, request) -/
+
+/-- THE ERROR TABLE HOLDS: whenever the table promises an error class for a call - any stored data
+    (reachable or not), any request, any algorithm outcome - the service answers exactly that class. -/
+theorem c01_error_table (cfg : Cfg) (hc : cfg.deleteCascadesOps = true) (db : DB) (r : Req) (e : Code × Via)
+    (h : specError db r = some e) : (step cfg db r).1 = .err e.1 e.2 := by
+  cases r with
+  | createStudy => simp [specError] at h
+  | listStudies => simp [specError] at h
+  | getStudy o s =>
+    simp only [specError] at h
+    cases hf : findStudy db o s with
+    | none => simp [hf] at h; subst h; simp [step, onStudy, hf]
+    | some st => simp [hf] at h
+  | listTrials o s =>
+    simp only [specError] at h
+    cases hf : findStudy db o s with
+    | none => simp [hf] at h; subst h; simp [step, onStudy, hf]
+    | some st => simp [hf] at h
+  | listOptimal o s =>
+    simp only [specError] at h
+    cases hf : findStudy db o s with
+    | none => simp [hf] at h; subst h; simp [step, onStudy, hf]
+    | some st => simp [hf] at h
+  | deleteStudy o s =>
+    simp only [specError] at h
+    cases hf : findStudy db o s with
+    | none => simp [hf] at h; subst h; simp [step, hf]
+    | some st => simp [hf] at h
+  | setStudyState o s stt =>
+    simp only [specError] at h
+    cases hf : findStudy db o s with
+    | none => simp [hf] at h; subst h; simp [step, onStudy, hf]
+    | some st => simp [hf] at h
+  | getOperation o s c n =>
+    simp only [specError] at h
+    cases hf : findStudy db o s with
+    | none => simp [hf] at h; subst h; simp [step, onStudy, hf, hc]
+    | some st => simp [hf] at h
+  | createTrial o s t =>
+    simp only [specError] at h
+    cases hf : findStudy db o s with
+    | none => simp [hf] at h; subst h; simp [step, onStudy, hf]
+    | some st =>
+      by_cases hi : st.immutable = true
+      · simp [hf, hi] at h; subst h; simp [step, onStudy, hf, hi]
+      · simp [hf, hi] at h
+  | suggest o s c n a =>
+    simp only [specError] at h
+    cases hf : findStudy db o s with
+    | none => simp [hf] at h; subst h; simp [step, onStudy, hf]
+    | some st =>
+      by_cases hi : st.immutable = true
+      · simp [hf, hi] at h; subst h; simp [step, onStudy, hf, hi]
+      · simp [hf, hi] at h
+  | updateMetadata o s us =>
+    simp only [specError] at h
+    cases hf : findStudy db o s with
+    | none => simp [hf] at h; subst h; simp [step, onStudy, hf]
+    | some st =>
+      by_cases hi : st.immutable = true
+      · simp [hf, hi] at h; subst h; simp [step, onStudy, hf, hi]
+      · simp [hf, hi] at h
+  | getTrial o s id =>
+    simp only [specError] at h
+    cases hf : findStudy db o s with
+    | none => simp [hf] at h; subst h; simp [step, onStudy, hf]
+    | some st =>
+      cases ht : st.findTrial id with
+      | none => simp [hf, ht] at h; subst h; simp [step, onStudy, hf, ht]
+      | some t => simp [hf, ht] at h
+  | deleteTrial o s id =>
+    simp only [specError] at h
+    cases hf : findStudy db o s with
+    | none => simp [hf] at h; subst h; simp [step, onStudy, hf]
+    | some st =>
+      by_cases hi : st.immutable = true
+      · simp [hf, hi] at h; subst h; simp [step, onStudy, hf, hi]
+      · cases ht : st.findTrial id with
+        | none => simp [hf, hi, ht] at h; subst h; simp [step, onStudy, hf, hi, deleteTrialBody, ht]
+        | some t => simp [hf, hi, ht] at h
+  | complete o s id f i rs =>
+    simp only [specError] at h
+    cases hf : findStudy db o s with
+    | none => simp [hf] at h; subst h; simp [step, onStudy, hf]
+    | some st =>
+      by_cases hi : st.immutable = true
+      · simp [hf, hi] at h; subst h; simp [step, onStudy, hf, hi]
+      · cases ht : st.findTrial id with
+        | none => simp [hf, hi, ht] at h; subst h; simp [step, onStudy, hf, hi, completeBody, ht]
+        | some t =>
+          by_cases hm : t.state.mutable = true
+          · simp [hf, hi, ht, hm] at h
+          · simp [hf, hi, ht, hm] at h; subst h; simp [step, onStudy, hf, hi, completeBody, ht, hm]
+  | checkEarlyStop o s id es =>
+    simp only [specError] at h
+    cases hf : findStudy db o s with
+    | none => simp [hf] at h; subst h; simp [step, onStudy, hf]
+    | some st =>
+      by_cases hi : st.immutable = true
+      · simp [hf, hi] at h; subst h; simp [step, onStudy, hf, hi]
+      · cases ht : st.findTrial id with
+        | none => simp [hf, hi, ht] at h; subst h; simp [step, onStudy, hf, hi, earlyStopBody, ht]
+        | some t =>
+          by_cases hm : t.state.mutable = true
+          · simp [hf, hi, ht, hm] at h
+          · simp [hf, hi, ht, hm] at h; subst h; simp [step, onStudy, hf, hi, earlyStopBody, ht, hm]
+  | addMeasurement o s id m =>
+    simp only [specError] at h
+    cases hf : findStudy db o s with
+    | none => simp [hf] at h; subst h; simp [step, onStudy, hf]
+    | some st =>
+      by_cases hi : st.immutable = true
+      · simp [hf, hi] at h; subst h; simp [step, onStudy, hf, hi]
+      · cases ht : st.findTrial id with
+        | none => simp [hf, hi, ht] at h; subst h; simp [step, onStudy, hf, hi, addMeasurementBody, ht]
+        | some t =>
+          cases hs : t.state <;> simp [hf, hi, ht, hs] at h <;>
+            (subst h; simp [step, onStudy, hf, hi, addMeasurementBody, ht, hs, TState.mutable])
+  | stop o s id =>
+    simp only [specError] at h
+    cases hf : findStudy db o s with
+    | none => simp [hf] at h; subst h; simp [step, onStudy, hf]
+    | some st =>
+      by_cases hi : st.immutable = true
+      · simp [hf, hi] at h; subst h; simp [step, onStudy, hf, hi]
+      · cases ht : st.findTrial id with
+        | none => simp [hf, hi, ht] at h; subst h; simp [step, onStudy, hf, hi, stopBody, ht]
+        | some t =>
+          cases hs : t.state <;> simp [hf, hi, ht, hs] at h <;>
+            (subst h; simp [step, onStudy, hf, hi, stopBody, ht, hs])
+
 /-- an early-stopping check whose algorithm raises never touches trials, study metadata or
     suggestion operations (only its own bookkeeping record) -/
 theorem c01_earlystop_failure_keeps_data (cfg : Cfg) (st : Study) (id : Nat) :
@@ -125,6 +257,13 @@ example : ((reach Cfg.fixed demo).studies.map fun st => st.trials.map (·.state)
     [[.succeeded, .infeasible, .stopping, .requested]] := by decide
 
 example : (step Cfg.fixed (reach Cfg.fixed demo) (.complete "o" "s" 1 (some ⟨9, true⟩) false "")).1.isError = true := by
+  decide
+
+/-- the table is not vacuous: it promises each of its three kinds of entries on a small store -/
+example :
+    specError (reach Cfg.fixed demo) (.getTrial "o" "nope" 1) = some (.notFound, .raw) ∧
+    specError (reach Cfg.fixed demo) (.stop "o" "s" 99) = some (.notFound, .raw) ∧
+    specError (reach Cfg.fixed demo) (.complete "o" "s" 1 none false "") = some (.failedPrecondition, .handled) := by
   decide
 
 end VizierModel.C01
